@@ -18,7 +18,7 @@ EXPLANATION = (
     "barrier_algorithm_base::arrive for every participant count.")
 ASSUMPTIONS = ["detail::condition_variable behaves as decided in C02/C07", "util::yield_while(f) returns only when f() is false"]
 THOROUGH_CONFIGS = [["-UNDEBUG", "-DPIKA_DEBUG"]]
-FLOORS = {"C09.R1": 10, "C09.R2": 4, "C09.R3": 5, "C09.R4": 6}
+FLOORS = {"C09.R1": 10, "C09.R2": 4, "C09.R3": 5, "C09.R4": 6, "C09.R5": 5}
 
 LOCK = "this->mtx_.data_"
 
@@ -55,6 +55,8 @@ def run(rep, tier):
     rep.rule("C09.R1", "latch: K1 notified_ under mtx_; K2 set on the zero edge before the notify loop; loop until no waiter; K7 wait() table")
     rep.rule("C09.R2", "event: set(): store(true, >=release) -> lock -> notify_all; waiters loop on the flag under the lock")
     rep.rule("C09.R3", "call_once: invoke only after winning the CAS; complete -> set; handler: reset status -> set -> rethrow; losers wait unless complete")
+    rep.rule("C09.R5", "waiters park on the condition variable; a waiter that polls through yield_while stays runnable for ever, so the FIFO run-queue "
+             "back-end must then rotate between producer streams (else the pollers starve a woken participant: participants > workers)")
     rep.rule("C09.R4", "barrier: completion -> adjust -> phase.store(old+2, release) only for the last arriver; wait polls with acquire; drop before arrive; tickets by acq_rel CAS")
 
     D = facts(rep, driver("c09_sync.cpp"), [r"^pika::latch::", r"^pika::experimental::event::", r"^pika::call_once$", r"^pika::barrier::"])
@@ -326,3 +328,70 @@ def run(rep, tier):
         rep.ok("C09.R4", ba, "ticket phases change only through compare_exchange_strong(acq_rel) (%d sites)" % len(mods))
     else:
         rep.bad("C09.R4", ba, loc_of(bad[0]) if bad else ba.loc, "ticket-cas", "tree tickets must only be modified by compare_exchange_strong with >=acq_rel")
+
+    # ---- R5: how the waiters block.  A waiter that parks (condition_variable::wait) leaves the run queues; a waiter that
+    # polls through util::yield_while* stays runnable and is re-enqueued by its worker after every poll, for as long as
+    # the tasks it waits for have not run.  With more participants than workers those tasks sit in the same run queues,
+    # so a polling waiter is only live if the run queue hands out elements of *other* producers while the pollers are
+    # re-enqueued continuously.  The queue side is decided from the back-end the FIFO policies use.
+    Q = facts(rep, driver("c17_queues.cpp"), [r"^pika::threads::detail::lockfree_fifo_backend::pop$", r"ConcurrentQueue::try_dequeue$"])
+    pops = [f for f in Q.find(r"^pika::threads::detail::lockfree_fifo_backend::pop$", pattern=False) if f.parent == -1]
+    if not pops:
+        raise AnalysisBroken("lockfree_fifo_backend::pop not instantiated")
+    deq = [e for _, _, e in pops[0].all_events() if e.get("k") == "call" and P(e.get("recv")) == "this->queue_"]
+    if len(deq) != 1:
+        raise AnalysisBroken("lockfree_fifo_backend::pop: expected one container operation")
+    deq = deq[0]
+    fair, why = True, "%s(%d args)" % (callee_short(deq), len(deq.get("args") or []))
+    if "ConcurrentQueue" in callee_of(deq) and callee_short(deq).startswith("try_dequeue"):
+        # token-less dequeue: the producer stream is chosen afresh on every call; it is fair only if the choice keeps state
+        # (the consumer-token overload rotates after a quota).  Decide from the body that is actually called.
+        nargs = len(deq.get("args") or [])
+        body = [f for f in Q.find(r"ConcurrentQueue::%s$" % callee_short(deq), pattern=False) if f.parent == -1 and len(f.params) == nargs]
+        if not body:
+            raise AnalysisBroken("ConcurrentQueue::%s/%d not instantiated" % (callee_short(deq), nargs))
+        body = body[0]
+        stateful = [e for _, _, e in body.all_events() if (e.get("k") == "write" and (P(e["lhs"]).startswith("this->") or P(e["lhs"]).startswith("token"))) or
+                    (e.get("k") == "call" and callee_short(e) in ("fetch_add", "store", "exchange") and (P(e.get("recv")).startswith("this->") or P(e.get("recv")).startswith("token")))]
+        picks = [a for _, a, _ in __import__("engine.kinds", fromlist=["cond_leaves"]).cond_leaves(body) if "bestSize" in a or "size_approx" in a]
+        if not stateful:
+            fair = False
+            why = ("lockfree_fifo_backend::pop -> %s: the producer stream is chosen by a stateless scan of the producer list (%s; ties go to list "
+                   "order) - no rotation, so a stream that is refilled after every pop is chosen for ever" % (callee_of(deq), ", ".join(sorted(set(picks))[:2]) or "size heuristic"))
+        else:
+            why = "%s keeps consumer state (rotates between producer streams)" % callee_of(deq)
+    rep.ok("C09.R5", pops[0], "FIFO run-queue back-end: " + (why if fair else "not producer-fair"))
+
+    def blocking(fn):
+        """(parks, polls) call events reachable in fn itself (and its lambdas)."""
+        parks, polls = [], []
+        for f in [fn] + list(fn.lambdas()):
+            for _, _, e in f.all_events():
+                if e.get("k") != "call":
+                    continue
+                cs = callee_short(e)
+                if cs in ("wait", "wait_until", "wait_for") and ("cond_" in P(e.get("recv")) or "event_" in P(e.get("recv"))):
+                    parks.append(e)
+                elif cs in ("wait_locked",):
+                    parks.append(e)
+                elif cs.startswith("yield_while") or cs in ("yield_k", "yield"):
+                    polls.append(e)
+        return parks, polls
+
+    waiters = [("pika::latch::wait", None), ("pika::latch::arrive_and_wait", None), ("pika::experimental::event::wait", None),
+               ("pika::call_once", True), ("pika::barrier::wait", True)]
+    for q, inst in waiters:
+        for fn in one(q, inst=inst)[:1]:
+            parks, polls = blocking(fn)
+            if not parks and not polls:
+                raise AnalysisBroken("%s: neither a parking nor a polling wait found" % q)
+            if polls and not fair:
+                rep.bad("C09.R5", fn, loc_of(polls[0]), "polling-wait:unfair-run-queue",
+                        "%s waits for other tasks by polling (%s): the waiter stays runnable and its worker re-enqueues it after every poll, while %s. "
+                        "With more participants than workers a participant that was woken by another worker (e.g. out of a latch) is never dequeued "
+                        "again, never arrives, and the pollers never stop (livelock; demonstration: findings/C09-polling-wait-starvation)"
+                        % (q, T(polls[0])[:60], why))
+            elif polls:
+                rep.ok("C09.R5", fn, "%s polls through %s; the run queue is producer-fair (%s)" % (q, callee_short(polls[0]), why))
+            else:
+                rep.ok("C09.R5", fn, "%s parks on the condition variable/event (%d site(s)): the waiter leaves the run queues" % (q, len(parks)))
